@@ -573,6 +573,11 @@ class Norm:
                     return ("fld", ("sym", f"class:{owner.fq}"), f"{owner.name}.{name}"), aty
             return ("attr", base, name), ANY
         ci = class_of(self.prog, bty)
+        if base[0] == "ite" and ci is not None and (ci.is_dataclass() or ci.is_namedtuple()):
+            # field of a conditional value: distribute (equal branches merge)
+            a, aty = self.attr(base[2], bty, name, ctx, node)
+            b, _ = self.attr(base[3], bty, name, ctx, node)
+            return mk_ite(base[1], a, b), aty
         if ci is None:
             return ("attr", base, name), self._ext_attr_type(bty, name)
         if base[0] == "new" and (ci.is_dataclass() or ci.is_namedtuple()) and name in dict(base[2]):
